@@ -179,6 +179,7 @@ def poolA (ops outs : List String) : String := Id.run do
            Q                         the body of the innermost CallContext is over
            E:<status> / e            the innermost CallContext (with / without its own pool) returned
            U:<n>                     CPU charged to the context that just ended, in finaliser units
+           N:<note>                  scenario note (`gc-refused` / `gc-escaped` / `file-exists`)
            C / Z                     Close begins / returned
   The epoch of a `G`/`R` is the last marking of that value before it.  A value belongs to the pool of the
   innermost context that has its own pool at marking time: it must be finalised/released INSIDE that
@@ -240,12 +241,17 @@ def luaLine (toks : List String) : String := Id.run do
     let parts := splitChars ':' tok.toList
     if tok != "U" && !(tok.startsWith "U:") then st := { st with lastEnded := none }
     match parts with
-    | [['M'], a, d] =>
+    | [['M'], a, d] | [['M'], a, d, _] =>
+      -- optional 4th field i: the value is already looked after by the i-th enclosing pool-owning context
+      -- (0 = the current one): "a value belongs to the context in which it was first marked"
+      let skip := match parts with | [_, _, _, i] => (natOfChars? i).getD 0 | _ => 0
       match natOfChars? a, natOfChars? d with
       | some k, some n =>
         let ep := st.seq + 1
+        let owners := (st.frames.filterMap (fun f => f.pool)) ++ [0]
+        let pool := owners.getD skip 0
         st := { st with seq := ep, tr := st.tr.push (.mark k ep (n % 2 == 1) (n / 2 == 1)),
-                        epochs := st.epochs.push (ep, k, st.curPool, n % 2 == 1, n / 2 == 1) }
+                        epochs := st.epochs.push (ep, k, pool, n % 2 == 1, n / 2 == 1) }
       | _, _ => return "bad-line"
     | [['G'], a] =>
       match parseIdAt a with
@@ -332,6 +338,12 @@ def luaLine (toks : List String) : String := Id.run do
         -- finalisers of a context that accounts for CPU are charged to it
         if tracked && got != inside then st := { st with bad := st.bad.push ("finalizers-not-charged-to-their-context:" ++ toString got) }
       | _, _ => return "bad-line"
+    | [['N'], note] =>
+      -- a note of the scenario: a finaliser set inside a context that requires compliance flags found itself
+      -- unrestricted (`gc-escaped`), or its forbidden effect is there afterwards (`file-exists`)
+      let n := String.ofList note
+      if n == "gc-escaped" || n == "file-exists" then
+        st := { st with bad := st.bad.push ("restricted-finaliser-ran-unrestricted:0") }
     | [['C']] => st := { st with closing := some st.tr.size }
     | [['Z']] =>
       let tr := st.tr.toList
@@ -364,17 +376,22 @@ def luaLine (toks : List String) : String := Id.run do
         mkU<r><m>:<k>   new userdata k, releasable r ∈ {0,1}, metatable kind m ∈ {0 = none, 1, 2, 3}
         rm<m>:<k>o|c    SetRawMetatable(original / last clone of k, metatable kind m ∈ {1,2,3})
         dr:<k>o|c  fi:<k>o|c  st
-        cc.<lims>.<pol>  CallContext with hard limits lims ⊆ "cmt" (cpu, memory, millis) and GC policy d|s|i;  ed | ee | ek
-        pu.<lims>.<pol>  PushContext;  cl  Close
+        cc.<lims>.<pol>[.<flags>]  CallContext with hard limits lims ⊆ "cmt" (cpu, memory, millis), GC policy d|s|i and
+                         required compliance flags ⊆ "cimt" (cpusafe, iosafe, memsafe, timesafe);  ed | ee | ek
+        pu.<lims>.<pol>[.<flags>]  PushContext;  cl  Close
   outputs: `f3@1` / `r3@1` (value 3 finalised / released while 1 context was open), `!` = that finaliser
   raised, `|w<n>` = n `error in finalizer` warnings, `~<n>` = CPU charged to the ending context. -/
 
 def parseCtxDef (cs : List Char) : Option GcRuntime.CtxDef :=
-  match splitChars '.' cs with
-  | [_, lims, [pol]] =>
+  let mk := fun (lims : List Char) (pol : Char) (flags : List Char) =>
     let policy? : Option GcRuntime.GCPolicy :=
       if pol == 'd' then some .default else if pol == 's' then some .share else if pol == 'i' then some .isolate else none
-    policy?.map fun policy => { cpu := lims.contains 'c', mem := lims.contains 'm', millis := lims.contains 't', policy := policy }
+    policy?.map fun policy => ({ cpu := lims.contains 'c', mem := lims.contains 'm', millis := lims.contains 't',
+                                 policy := policy, flags := !flags.isEmpty } : GcRuntime.CtxDef)
+  match splitChars '.' cs with
+  | [_, lims, [pol]] => mk lims pol []
+  -- optional 4th part: required compliance flags, a subset of "cimt" (cpusafe, iosafe, memsafe, timesafe)
+  | [_, lims, [pol], flags] => mk lims pol flags
   | _ => none
 
 def showLogAt (evs : List TEv) (depths : List Nat) (raised : List Bool) : List String :=
@@ -509,11 +526,12 @@ def rtLine (toks : List String) (impl : List String) : String := Id.run do
             let mk := m.toNat - '0'.toNat
             let fr := markFlagsOf isTable releasable mk
             kinds := (k, isTable, releasable) :: kinds
+            let owner := match s.live with | _ :: rest => GcRuntime.markingIdx rest k | [] => 0
             s := GcRuntime.rstep s (.prim (.mark { key := k, id := 0, clone := false } fr.1 fr.2))
             if mk == 3 then s := GcRuntime.rstep s (.prim (.setRaise k))
             refs := (toString k ++ "o") :: refs
             if implOut != "panic" && implOut != "X" && flagsNum fr != 0 then
-              atoks := atoks.push ("M:" ++ toString k ++ ":" ++ toString (flagsNum fr))
+              atoks := atoks.push ("M:" ++ toString k ++ ":" ++ toString (flagsNum fr) ++ ":" ++ toString owner)
           | none => ok := false
         | ['r', 'm', m] =>
           let mk := m.toNat - '0'.toNat
@@ -522,6 +540,9 @@ def rtLine (toks : List String) (impl : List String) : String := Id.run do
           let fr := match kind with
             | some (_, isTable, releasable) => markFlagsOf isTable releasable mk
             | none => (false, false)
+          let owner := match s.live, natOfChars? kstr.toList with
+            | _ :: rest, some kk => GcRuntime.markingIdx rest kk
+            | _, _ => 0
           match resolve s a with
           | some ob =>
             -- the metatable (hence whether `__gc` raises) only reaches the pool's clone if the value is marked again
@@ -532,7 +553,7 @@ def rtLine (toks : List String) (impl : List String) : String := Id.run do
           if implOut != "n" then
             if !refs.contains (String.ofList a) then disciplined := false
             if implOut != "panic" && implOut != "X" && flagsNum fr != 0 then
-              atoks := atoks.push ("M:" ++ kstr ++ ":" ++ toString (flagsNum fr))
+              atoks := atoks.push ("M:" ++ kstr ++ ":" ++ toString (flagsNum fr) ++ ":" ++ toString owner)
         | ['f', 'i'] =>
           match resolve s a with
           | some ob =>
